@@ -24,7 +24,7 @@ type caseWriter struct {
 	n          int
 	stats      map[string]int
 	samples    []string
-	distinct   map[string]bool
+	distinct   map[uint64]struct{}
 }
 
 func newCaseWriter(dir, name string) *caseWriter {
@@ -37,7 +37,7 @@ func newCaseWriter(dir, name string) *caseWriter {
 		panic(err)
 	}
 	return &caseWriter{cases: bufio.NewWriterSize(fc, 1<<20), obs: bufio.NewWriterSize(fo, 1<<20), fc: fc, fo: fo,
-		stats: map[string]int{}, distinct: map[string]bool{}}
+		stats: map[string]int{}, distinct: map[uint64]struct{}{}}
 }
 
 func (w *caseWriter) add(class string, opline string, obsline string) {
@@ -49,13 +49,11 @@ func (w *caseWriter) add(class string, opline string, obsline string) {
 		st = st[:i]
 	}
 	w.stats[class+"/"+st]++
-	key := opline
-	if len(key) > 400 {
-		key = key[:400]
+	h := uint64(14695981039346656037)
+	for i := 0; i < len(opline); i++ {
+		h = (h ^ uint64(opline[i])) * 1099511628211
 	}
-	if !w.distinct[key] {
-		w.distinct[key] = true
-	}
+	w.distinct[h] = struct{}{}
 	if len(w.samples) < 6 && w.n%97 == 1 {
 		s := opline + " => " + obsline
 		if len(s) > 300 {
@@ -524,6 +522,51 @@ func emitPrimCases(w *caseWriter, r *rng, thorough bool) {
 					w.rpCase(p, in)
 					w.rpCase(p, append(countBytes(le, wd, claim), make([]byte, r.intn(2*widthOf[k]+2))...))
 				}
+			}
+		}
+	}
+	if thorough {
+		emitPrimExhaustive(w)
+	}
+}
+
+// Exhaustive small scope (thorough tier): EVERY byte string of length 0, 1 and 2 (65,793 inputs) into every reader
+// variant whose prefixes are one or two bytes wide - the inputs on which a reader's decisions (short read, length
+// claim against what is left, empty list, pad stripping) are all exercised - so that on this scope the hand-written
+// model and the Go helpers are compared completely, not sampled.
+func emitPrimExhaustive(w *caseWriter) {
+	var specs []primSpec
+	for _, le := range []bool{false, true} {
+		for _, ity := range []string{"U8", "I8", "U16", "I16"} {
+			specs = append(specs, primSpec{Kind: "basic", Le: le, Ity: ity})
+		}
+		for _, l := range []string{"U8", "U16"} {
+			specs = append(specs, primSpec{Kind: "string", Le: le, Len: l})
+		}
+		for _, c := range []string{"U8", "U16"} {
+			specs = append(specs, primSpec{Kind: "basiclist", Le: le, Cnt: c, Ity: "U8"})
+		}
+		specs = append(specs, primSpec{Kind: "basiclist", Le: le, Cnt: "U8", Ity: "U16"})
+		specs = append(specs, primSpec{Kind: "stringlist", Le: le, Cnt: "U8", Len: "U8"})
+		specs = append(specs, primSpec{Kind: "fixedlist", Le: le, Cnt: "U8", N: 1, Pad: ' ', Left: false})
+		specs = append(specs, primSpec{Kind: "fixedlist", Le: le, Cnt: "U8", N: 0, Pad: ' ', Left: true})
+	}
+	for _, pad := range []int{' ', 0, 0xff, '0'} {
+		for _, left := range []bool{false, true} {
+			for n := 0; n <= 2; n++ {
+				specs = append(specs, primSpec{Kind: "fixed", N: n, Pad: pad, Left: left})
+			}
+		}
+	}
+	in := make([]byte, 0, 2)
+	for _, p := range specs {
+		w.rpCase(p, in[:0])
+		for a := 0; a < 256; a++ {
+			w.rpCase(p, []byte{byte(a)})
+		}
+		for a := 0; a < 256; a++ {
+			for b := 0; b < 256; b++ {
+				w.rpCase(p, []byte{byte(a), byte(b)})
 			}
 		}
 	}
